@@ -12,7 +12,7 @@
    Hypotheses used: os.getcwd() is absolute; default_filename is None or a plain name. *)
 From Coq Require Import List NArith ZArith Bool String.
 Import ListNotations.
-From TV Require Import Lib.Obs C26.Model C26.Run C26.Proofs C26.Proofs2 C26.Proofs3.
+From TV Require Import Lib.Obs C26.Model C26.Seq C26.Run C26.Proofs C26.Proofs2 C26.Proofs3 C26.Proofs4 C26.Proofs5.
 
 (* 200: the file whose content is sent (the path itself, or the default file of a
    directory) is confined to the root, for every configuration, filesystem and request path. *)
@@ -103,6 +103,17 @@ Theorem C26_absolute_path_is_normalised :
 Proof. exact gap_normal. Qed.
 Print Assumptions C26_absolute_path_is_normalised.
 
+(* posixpath.normpath is idempotent on EVERY string (absolute, relative, empty), hence
+   get_absolute_path's result is a fixed point of abspath. *)
+Theorem C26_normpath_idempotent : forall p, normpath (normpath p) = normpath p.
+Proof. exact normpath_idempotent. Qed.
+Print Assumptions C26_normpath_idempotent.
+
+Theorem C26_abspath_idempotent : forall cwd p, starts_with_slash cwd = true ->
+  abspath cwd (abspath cwd p) = abspath cwd p.
+Proof. exact abspath_idempotent. Qed.
+Print Assumptions C26_abspath_idempotent.
+
 (* The string test of validate_absolute_path — (abspath + "/").startswith(root with its
    trailing slash re-added) — on normalised paths implies segment-wise containment ... *)
 Theorem C26_prefix_test_is_segmentwise :
@@ -141,12 +152,72 @@ Theorem C26_lexical_normalisation_matches_resolution :
 Proof. exact kresolve_lexical. Qed.
 Print Assumptions C26_lexical_normalisation_matches_resolution.
 
-(* the model passes the checker that is applied to the implementation's observables *)
-Theorem C26_model_satisfies_checker :
-  forall base cwd root prefix dflt raw,
-    starts_with_slash cwd = true ->
-    check_case (base, cwd, root, prefix, dflt, raw)
-               (run_case (base, cwd, root, prefix, dflt, raw)) = true.
+(* ------------------------------------------------------------------------------------------
+   Several StaticFileHandlers in one Application sharing the class-wide hash cache
+   (_static_hashes), sequences of GET/HEAD requests and static_url calls (Seq.v).
+   H is the content hash (abstract), fs the filesystem oracle, c the cache state.
+   ------------------------------------------------------------------------------------------ *)
+
+(* Whatever the cache holds — entries made by other handlers with sibling roots, by static_url
+   for files outside every root, or arbitrary garbage — every request of every sequence is
+   answered with exactly the response of the single-request model for the handler whose route
+   matches first, and that response satisfies the single-request invariant (served file /
+   redirect / existence probes confined to THAT handler's root). *)
+Theorem C26_cache_never_changes_what_is_served :
+  forall H fs app hash_cache ops c,
+    app_ok app ->
+    Forall2 (fun o out =>
+               match o with
+               | OReq m raw =>
+                   exists etag, out = SReq m (answer fs app raw) etag /\
+                     match pick app raw with
+                     | None => answer fs app raw = RNoRoute
+                     | Some h => In h app /\ answer fs app raw = respond h fs raw /\
+                                 resp_inv h fs raw (answer fs app raw)
+                     end
+               | OStaticUrl _ _ => match out with SReq _ _ _ => False | _ => True end
+               end) ops (run_seq H fs app hash_cache c ops).
+Proof. exact seq_confined. Qed.
+Print Assumptions C26_cache_never_changes_what_is_served.
+
+(* Refinement: from a consistent cache (in particular the empty one) the whole sequence,
+   Etags and versioned URLs included, equals the cache-less reference answer by answer ... *)
+Theorem C26_hash_cache_is_transparent :
+  forall H fs app hash_cache ops c,
+    consistent H fs c ->
+    run_seq H fs app hash_cache c ops = map (stateless H fs app) ops.
+Proof. exact run_seq_refines. Qed.
+Print Assumptions C26_hash_cache_is_transparent.
+
+(* ... and consistency is an invariant of every operation sequence. *)
+Theorem C26_hash_cache_stays_consistent :
+  forall H fs app hash_cache ops c,
+    consistent H fs c -> consistent H fs (cache_after H fs app hash_cache c ops).
+Proof. exact cache_stays_consistent. Qed.
+Print Assumptions C26_hash_cache_stays_consistent.
+
+(* Which paths can ever become cache keys: paths confined to the root of the handler that
+   served them, or abspath(join(static_path, p)) for a p the application itself passed to
+   static_url (never request data). *)
+Theorem C26_cache_keys :
+  forall H fs app hash_cache ops c,
+    app_ok app -> keys_ok app c -> keys_ok app (cache_after H fs app hash_cache c ops).
+Proof. exact cache_keys. Qed.
+Print Assumptions C26_cache_keys.
+
+(* Non-interference with the Etag included: the complete answer to a request (status, Location,
+   body, Etag) is the same under two filesystems that agree inside the handlers' roots. *)
+Theorem C26_request_answer_independent_of_outside_files :
+  forall H fs1 fs2 app m raw,
+    app_ok app ->
+    (forall h p, In h app -> confined (root_abs h) p -> fs1 p = fs2 p) ->
+    stateless H fs1 app (OReq m raw) = stateless H fs2 app (OReq m raw).
+Proof. exact request_noninterference. Qed.
+Print Assumptions C26_request_answer_independent_of_outside_files.
+
+(* the model passes the checker that is applied to the implementation's observables:
+   every input, no hypothesis (the input carries cwd without its leading "/") *)
+Theorem C26_model_satisfies_checker : forall i, check_case i (run_case i) = true.
 Proof. exact model_satisfies_checker. Qed.
 Print Assumptions C26_model_satisfies_checker.
 
